@@ -444,6 +444,21 @@ def check_fftnoise(ctx, rule="R4-hermitian-random-phase"):
         def lib(I_, name, args, kw, st, n, caught=caught):
             if name == "numpy.fft.ifft":
                 caught.append(args[0]); return ArrParam("ifft_out", kind="complex")
+            if name == "numpy.fft.irfft":
+                # irfft(H, n) is the inverse FFT of the length-n Hermitian extension of H: bins beyond len(H) are zero-padded (and bins beyond
+                # n//2 dropped), the imaginary parts of DC and (even n) Nyquist are discarded, bin n-k is the conjugate of bin k
+                H = as_arr(args[0]) if isinstance(args[0], (Arr, ArrParam, LocalArr)) else None
+                M = H.axes[0][1].as_int() if H is not None and H.ndim == 1 else None
+                nn = to_x(kw.get("n", args[1] if len(args) > 1 else None)) if (kw.get("n") is not None or len(args) > 1) else None
+                n_ = nn.as_int() if nn is not None else (2 * (M - 1) if M else None)
+                if M is None or n_ is None: return Opaque("np.fft.irfft of a half spectrum of unknown length")
+                hb = lambda j: subst_val(H.body, {H.axes[0][0]: X.const(j)}) if j < M else X.const(0)
+                bins = []
+                for k in range(n_):
+                    if k == 0 or (n_ % 2 == 0 and k == n_ // 2): bins.append(lift1(lambda x: x.real(), hb(k)))
+                    elif k <= n_ // 2: bins.append(hb(k))
+                    else: bins.append(lift1(lambda x: x.conj(), hb(n_ - k)))
+                caught.append(bins); return ArrParam("irfft_out", kind="real")
             if name == "numpy.random.default_rng":
                 return Obj("rng")
             return NotImplemented
@@ -464,13 +479,20 @@ def check_fftnoise(ctx, rule="R4-hermitian-random-phase"):
             ctx.unknown(rule, f"{key}[N={N}]", str(ex), where); continue
         if not caught:
             ctx.unknown(rule, f"{key}[N={N}]", "spectrum handed to the inverse FFT not found", where); continue
-        F = as_arr(caught[0])
-        if F is None or F.ndim != 1:
-            ctx.unknown(rule, f"{key}[N={N}]", f"spectrum {caught[0]!r}"[:160], where); continue
+        if isinstance(caught[0], list):
+            if len(caught[0]) != N:
+                bad.append((N, 0, VIOLATED, f"{len(caught[0])} output samples", f"{N} samples")); continue
+            bins_ = caught[0]
+        else:
+            F = as_arr(caught[0])
+            if F is None or F.ndim != 1:
+                ctx.unknown(rule, f"{key}[N={N}]", f"spectrum {caught[0]!r}"[:160], where); continue
+            if F.axes[0][1].as_int() != N:
+                bad.append((N, 0, VIOLATED, f"{F.axes[0][1]!r} output samples", f"{N} samples")); continue
+            bins_ = [subst_val(F.body, {F.axes[0][0]: X.const(k)}) for k in range(N)]
         Np = (N - 1) // 2
-        v = F.axes[0][0]
         for k in range(N):
-            got = subst_val(F.body, {v: X.const(k)})
+            got = bins_[k]
             gx = to_x(got) if not isinstance(got, PV) and not is_opaque(got) else None
             fk = lambda j: mk_idx("spec", [X.const(j)], "complex")
             th = lambda j: X.const(2) * X.var("pi") * mk_idx("phi", [X.const(j)], "real")       # phases uniform in [0, 2 pi)
